@@ -122,6 +122,15 @@ class Walker:
             return
         b = self.b
         visit = onpath.get(bb, 0) + 1
+        hof = b.blocks[bb].get("hof_head")
+        if hof and visit > 1:
+            # synthetic loop head of an unfolded closure (sa/inline.py): the closure body ran once on this path, now leave through the call
+            if visit > 3:
+                return
+            onpath = dict(onpath)
+            onpath[bb] = visit
+            self._dfs(b.blocks[bb]["term"]["otherwise"], env, lits, blocks + [bb], stop, onpath)
+            return
         if visit > self.unroll:
             self.paths.append({"lits": lits, "outcome": ("loop", bb), "blocks": blocks + [bb], "env": env})
             return
@@ -141,6 +150,14 @@ class Walker:
                     continue
                 if rv["k"] == "ref" and rv.get("mut"):
                     env.pop(place_str(rv["pl"]), None)      # may be changed through the reference
+                # a tuple moved as a whole keeps what is known about its components (the result tuple of an inlined helper)
+                if rv["k"] == "use" and rv["op"].get("k") in ("copy", "move"):
+                    src = place_str(rv["op"]["pl"]) + "."
+                    for k2 in [k2 for k2 in env if k2.startswith(key + ".")]:
+                        env.pop(k2, None)
+                    for k2, v2 in list(env.items()):
+                        if k2.startswith(src):
+                            env[key + "." + k2[len(src):]] = v2
                 v = self.eval_rvalue(rv, env)
                 if v is not None:
                     env[key] = v
@@ -160,6 +177,13 @@ class Walker:
         sfx = "" if visit == 1 else "#%d" % visit
         if k == "return":
             self.paths.append({"lits": lits, "outcome": ("return",), "blocks": blocks, "env": env})
+        elif k == "switch" and t.get("hof"):
+            # nondeterministic: the closure runs (any of the entries) or not; no literal
+            # literal: whether the closure body ran on this path (for a search adaptor: whether there was an element to look at)
+            ran = ("opaque", "closure-ran:" + t["hof"].rsplit("::", 1)[-1])
+            for val, tg in t["targets"]:
+                self._dfs(tg, env, lits + [ran], blocks, stop, onpath)
+            self._dfs(t["otherwise"], env, lits + [neg(ran)], blocks, stop, onpath)
         elif k == "switch":
             v = self.val_of_operand(t["op"], env)
             if t.get("ty") == "bool":
@@ -208,6 +232,14 @@ class Walker:
                     env2 = dict(env)
                     env2[dest] = ("const", av[1] == {"is_none": "None", "is_some": "Some", "is_ok": "Ok", "is_err": "Err"}[nm])
                     name = nm
+            if name is None and t.get("hof_passthrough"):
+                # the unfolded closure ran on this path and its result is known: find_map / and_then hand exactly that value on;
+                # if it did not run, find_map yields None
+                env2 = dict(env)
+                if dest not in env2:
+                    if t["hof_passthrough"] == "find_map":
+                        env2[dest] = ("variant", "None", 0)
+                name = "hof"
             if name is None:
                 env2 = dict(env)
                 if t.get("dest_ty") == "bool":
